@@ -575,6 +575,7 @@ struct FnEmitter {
     case Intrinsic::prefetch: case Intrinsic::donothing:
       return true;
     case Intrinsic::memcpy: case Intrinsic::memmove: case Intrinsic::memset: {
+      if (STOREHOOK) O << ind << "v_store_hook((u8*)" << val(CB.getArgOperand(0)) << ");\n";
       if (auto *LN = dyn_cast<ConstantInt>(CB.getArgOperand(2))) {
         uint64_t N = LN->getZExtValue();
         auto vf = [&](Value *v) { return val(v); };
@@ -724,6 +725,8 @@ struct FnEmitter {
     std::string n = val(CI.getArgOperand(0)); std::string st = "sizeof(" + ctype(ET) + ")";
     const char *z = ET->isIntegerTy(64) ? "1" : "0"; // vector<bool> words: zero-initialised model (bit-level folding)
     O << ind << lhs << "(u8*)((" << n << " % " << st << " == 0) ? __CPROVER_allocate(" << st << " * (" << n << " / " << st << "), " << z << ") : __CPROVER_allocate(" << n << ", 0));\n";
+    if (!lhs.empty() && isa<ConstantInt>(CI.getArgOperand(0)) && ET->isStructTy()) O << ind << "v_alloc_note((u8*)" << names[&CI] << ");\n";   // rank for v_plt (constant-size `new T`)
+    if (STOREHOOK && !lhs.empty()) O << ind << "v_alloc_hook((u8*)" << names[&CI] << ");\n";
     return true;
   }
   bool special(CallBase &CI, const std::string &ind) {
@@ -940,6 +943,15 @@ struct FnEmitter {
       case CmpInst::ICMP_SLT: op = "<"; sg = true; break; case CmpInst::ICMP_SLE: op = "<="; sg = true; break;
       default: break;
       }
+      if (ptr && !sg && IC->isRelational()) {   // allocation-order model for distinct heap objects (v_rt.h: v_plt)
+        switch (IC->getPredicate()) {
+        case CmpInst::ICMP_ULT: O << ind << lhs << "v_plt(" << ua << ", " << ub << ");\n"; return;
+        case CmpInst::ICMP_UGT: O << ind << lhs << "v_plt(" << ub << ", " << ua << ");\n"; return;
+        case CmpInst::ICMP_ULE: O << ind << lhs << "!v_plt(" << ub << ", " << ua << ");\n"; return;
+        case CmpInst::ICMP_UGE: O << ind << lhs << "!v_plt(" << ua << ", " << ub << ");\n"; return;
+        default: break;
+        }
+      }
       O << ind << lhs << "(" << (sg ? sa : ua) << " " << op << " " << (sg ? sb : ub) << ");\n"; return;
     }
     if (auto *FC = dyn_cast<FCmpInst>(&I)) {
@@ -985,6 +997,7 @@ struct FnEmitter {
     }
     if (auto *CX = dyn_cast<AtomicCmpXchgInst>(&I)) {
       std::string p = val(CX->getPointerOperand());
+      if (STOREHOOK) O << ind << "v_atomic_hook((u8*)" << p << ");\n";
       O << ind << names[&I] << ".f0 = *" << p << ";\n";
       O << ind << names[&I] << ".f1 = (" << names[&I] << ".f0 == " << val(CX->getCompareOperand()) << ");\n";
       O << ind << "if (" << names[&I] << ".f1) *" << p << " = " << val(CX->getNewValOperand()) << ";\n"; return;
